@@ -11,8 +11,10 @@ from .formats_common import cps
 GEN_UNITS = ["ShaCrypt", "B64", "Handlers", "PyUnicode", "FormatDigests", "FormatParsers"]
 LEAN_TARGETS = ["PasslibVerif.Props.C01", "PasslibVerif.Props.C01Crypt"]
 #: per-family end-to-end instantiations (hasher = C07 parser/renderer + Spec checksum): (corr module, Props module, suite name)
-FAMILIES = [("c01_pbkdf", "PasslibVerif.Props.C01Pbkdf", "pbkdf-family-hash-verify-model")]
-LEAN_TARGETS += [f[1] for f in FAMILIES]
+FAMILIES = [("c01_pbkdf", ["PasslibVerif.Props.C01Pbkdf"], "pbkdf-family-hash-verify-model"),
+            ("c01_misc", ["PasslibVerif.Props.C01Misc"], "misc-family-hash-verify-model"),
+            ("c01_static", ["PasslibVerif.Props.C01Static", "PasslibVerif.Props.C01StaticExamples", "PasslibVerif.Props.C01StaticExamples2"], "static-family-hash-verify-model")]
+LEAN_TARGETS += [t for f in FAMILIES for t in f[1]]
 ASSUMPTIONS = [
     "that two secrets which differ outside a format's documented equivalences have different checksums is collision resistance of the digest primitives — not a theorem; "
     "it is explored on the real code with near-miss secrets",
@@ -280,6 +282,18 @@ def replay(ctx, inp):
             return {"fails": v is not True and inp["hasher"] not in vc.DISABLED, "observed": {"hash": hs, "verify": v}}
         except Exception as e:  # noqa: BLE001
             return {"fails": True, "observed": errname(e) + ": " + str(e)[:100]}
+    if inp.get("op") == "scrypt7-dollar-salt":
+        from passlib.hash import scrypt
+
+        try:
+            hs = scrypt.using(ident="$7$", salt=b"a$b", rounds=1, block_size=1, parallelism=1).hash("pw")
+        except NotImplementedError as e:
+            return {"fails": False, "observed": "refused: " + str(e)}
+        try:
+            v = scrypt.verify("pw", hs)
+        except Exception as e:  # noqa: BLE001
+            v = errname(e)
+        return {"fails": v is not True, "observed": {"hash": hs, "verify": v}}
     if inp.get("op") == "lmhash-bytes-case":
         from passlib.hash import lmhash
 
